@@ -535,7 +535,10 @@ impl Property for C06 {
          reference encoding: b complete under 3 chunk policies (incl. EINTR every 2nd call); EVERY offset 0<=x<|b| as end of input, as \
          a hard read error and as a one-shot EINTR, under 2 chunk policies, through both decoders (read_value, read_deser into a \
          self-describing sink, and typed read_deser for corpus values); 16-48 seeded 1-2 byte XOR damages and 6 random byte strings \
-         with the conformance oracle on every Ok. One evaluation = one decode call. distinct_nontrivial counts distinct (schema node \
+         with the conformance oracle on every Ok; and the datum inside a container file read by one long-lived Reader (both \
+         iterators): a first block of 1-4 copies, then a block that declares more objects than it holds (k complete copies plus a \
+         strict prefix of another; null codec and one seeded compressing codec) - the missing object must be an error, never a value. \
+         One evaluation = one decode call or one container read. distinct_nontrivial counts distinct (schema node \
          kind at the fault position, decoder, fault kind, chunk policy) tuples."
             .into()
     }
@@ -558,7 +561,7 @@ impl Property for C06 {
         }
     }
     fn required_probes(&self) -> Vec<&'static str> {
-        vec!["probe.eof_in_boolean", "probe.eof_in_string", "probe.eof_in_union", "probe.eof_in_uuid", "probe.damaged_bytes_decoded_ok"]
+        vec!["probe.eof_in_boolean", "probe.eof_in_string", "probe.eof_in_union", "probe.eof_in_uuid", "probe.damaged_bytes_decoded_ok", "probe.container_block_declares_more_than_it_holds"]
     }
 
     fn generate(&self, rng: &mut Rng, _run: u64, _tier: Tier) -> Option<Case> {
